@@ -334,6 +334,77 @@ def work_assign(shard):
 
 
 ###############################################################################
+# histories: TIME$ and DATE$ assignments interleaved with elapsed time
+
+HIST_OPS = [
+    ('T', b'10:20:30'), ('T', b'01:02:03'), ('D', b'01-02-1990'), ('D', b'12-31-2099'),
+    ('T', b'25:00:00'), ('D', b'02-30-2000'), ('A', 3600),
+]
+
+
+def work_history(shard):
+    """Every sequence of assignments / clock advances; after each step TIME$ and DATE$ must be
+    what was last set (plus the elapsed seconds); an invalid value changes nothing."""
+    import itertools as _it
+    clock, seqs = shard
+    part = Partial()
+    for seq in seqs:
+        with Env(clock) as e:
+            t, d = e.read()
+            for k, (op, val) in enumerate(seq):
+                case = {'history': [[o, v] for o, v in seq], 'clock': clock}
+                part.n += 1
+                part.traces += 1
+                if op == 'A':
+                    e.vc.advance(val)
+                    h_, m_, s_ = (int(x) for x in t.split(b':'))
+                    if h_ * 3600 + m_ * 60 + s_ + val >= 86400:
+                        # the time passes midnight: the date moves on with it
+                        mm, dd, yy = (int(x) for x in d.split(b'-'))
+                        nd = datetime.date(yy, mm, dd) + datetime.timedelta(days=1)
+                        d = b'%02d-%02d-%04d' % (nd.month, nd.day, nd.year)
+                    t = add_seconds(t, val)
+                    r = None
+                else:
+                    which = b'TIME$' if op == 'T' else b'DATE$'
+                    r = H.run(e.s, SETUP + which + b'=' + basic_str(val))
+                    kind, exp = (ref_time if op == 'T' else ref_date)(val)
+                    if r.exc is not None:
+                        part.violation('history/host-exception/%s' % H.exc_key(r.exc), repr(r.exc), case)
+                        break
+                    if kind == 'valid':
+                        if r.err is not None:
+                            part.violation('history/valid-rejected/%s' % op, '%r rejected with %r' % (val, r.err), case)
+                            break
+                        if op == 'T':
+                            t = exp
+                        else:
+                            d = exp
+                    elif r.err != IFC:
+                        part.violation('history/invalid-not-ifc/%s' % op, '%r gave %r' % (val, r.err), case)
+                        break
+                got = e.read()
+                part.classes.add('history/%s' % ''.join(o for o, _ in seq[:k + 1]))
+                if got != (t, d):
+                    what = 'time' if got[0] != t else 'date'
+                    part.violation(
+                        'history/%s-changed-by-%s' % (what, {'T': 'TIME$-assignment', 'D': 'DATE$-assignment',
+                                                          'A': 'elapsed-time'}[op]),
+                        'after %r: TIME$|DATE$ = %r, expected %r' % (seq[:k + 1], got, (t, d)), case)
+                    break
+    part.sample({'history': [list(x) for x in seqs[0]]})
+    return part
+
+
+def history_seqs(maxlen):
+    import itertools as _it
+    out = []
+    for n in range(2, maxlen + 1):
+        out.extend(_it.product(HIST_OPS, repeat=n))
+    return out
+
+
+###############################################################################
 # value sets
 
 def time_valid(quick):
@@ -609,6 +680,12 @@ def legs(ctx):
                          'range, negative, signed, blank, non-numeric, huge components%s; 2 and 4 components; '
                          'foreign separators; non-leap 02-29' % (
                              len(di), ' (quick: at most one bad component)' if q else '')))
+    hs = history_seqs(3 if q else 4)
+    out.append(Leg('history', [(i % len(CLOCKS), c) for i, c in enumerate(chunked(hs, 20))], work_history,
+                   exhaustive=True,
+                   bound='all %d sequences of length 2..%d over %d operations (2 valid and 1 invalid TIME$, 2 valid and '
+                         '1 invalid DATE$, clock +3600 s); TIME$ and DATE$ read back after every step' % (
+                             len(hs), 3 if q else 4, len(HIST_OPS))))
     ec = environ_cases(q)
     out.append(Leg('environ', list(chunked(ec, 40 if q else 60)), work_environ, exhaustive=True,
                    bound='%d cases: %d names x %d values (every single byte 00..FF alone%s, "=", long), odd names, '
@@ -620,6 +697,8 @@ def legs(ctx):
 
 def replay(ctx, leg, case):
     part = Partial()
+    if 'history' in case:
+        return work_history((case.get('clock', 0), [tuple((o, v) for o, v in case['history'])]))
     if 'steps' in case:
         with Env(0) as e:
             environ_case(part, e, [(n, v) for n, v in case['steps']], case['read'])
